@@ -866,6 +866,8 @@ class Controller(object):
 
         # Otherwise, we are doing a restart
         self.last_successful_iter = 0
+        # Keep in step with the main loop, which rescales its own rhoend after every successful soft restart
+        self.rhoend = params("restarts.rhoend_scale") * self.rhoend
         return None  # exit_info = None
 
     def move_furthest_points(self, number_of_samples, num_pts_to_move, params):
